@@ -640,7 +640,7 @@ def run(ck: core.Check):
         ck.leanchecker(["SpoxModel.Props.C01", "SpoxModel.Props.C01Build"])
 
     rng = ck.rng
-    n_random = ck.pick(360, 6000)
+    n_random = ck.pick(360, 5000)
     n_styles = ck.pick(3, 4)
     n_bind = 3
     skel_uses = ck.pick(3, 6)
